@@ -104,6 +104,30 @@ package shard
 //@   callee (*metabase.DB).PutCounted, (*metabase.DB).Put, (*metabase.DB).Delete, (*metabase.DB).DeleteContainer, (*metabase.DB).InhumeContainer, (*metabase.DB).MarkGarbage, (*metabase.DB).ReviveObject, (common.Storage).Put, (common.Storage).PutBatch, (common.Storage).Delete, (writecache.Cache).Put, (writecache.Cache).Delete, (writecache.Cache).Flush
 //@   requires [modifying_call_only_in_writable_mode] writableMode() || s.info.Mode == mode.ReadWrite
 
+// Reads keep working in the modes without a metabase (degraded, degraded read-only): an
+// operation consults the metabase only on a path where Mode.NoMetabase() answered false
+// (otherwise it must serve the request from the blobstor / write-cache alone, or refuse
+// with the degraded-mode error without touching the closed metabase).
+//@ ghost pred metabaseUsable() bool
+//@ callrule c14_metabase_mode_answer in *
+//@   property C14
+//@   callee (mode.Mode).NoMetabase
+//@   pureeffect
+//@   defines !result ==> metabaseUsable()
+// Exempt: the life-cycle functions that open / fill / switch the metabase themselves;
+// DeleteContainer (a modifying request: in a mode without a metabase it answers with the
+// metabase's own mode error); ObjectStatus (diagnostic: records whatever every component
+// answers, errors included). fetchObjectData is the common read helper: it asks the
+// metabase whenever its caller did not forbid it, and is proved below to let a metabase
+// error fail the read only when the mode has a metabase.
+//@ callrule c14_metabase_consulted_only_when_the_mode_has_one in *, !(*Shard).Open, !(*Shard).fillInfo, !(*Shard).Init, !(*Shard).initMetabase*, !(*Shard).refillMetabase*, !(*Shard).resyncObjectHandler*, !(*Shard).Reload*, !(*Shard).setMode*, !(*Shard).DeleteContainer, !(*Shard).ObjectStatus, !(*Shard).fetchObjectData
+//@   property C14
+//@   callee (*metabase.DB).*
+//@   requires [metabase_consulted_only_when_the_mode_has_one] metabaseUsable() || s.info.Mode == mode.ReadWrite
+//@ func (*Shard).fetchObjectData
+//@   property C14
+//@   ensures [metabase_error_fails_the_read_only_when_the_mode_has_a_metabase] res1 != nil && resultOf(res1, "(*metabase.DB).Exists") ==> metabaseUsable()
+
 // ---- C43: the reported mode changes only when every component switched.
 //@ ghost pred allComponentsSwitched() bool
 //@ callrule c43_shard_collaborators in (*Shard).setMode, (*Shard).setModeStorage
